@@ -806,6 +806,10 @@ class Interp:
                 return BoolV("const", not r.a) if r.kind == "const" else BoolV("not", r)
             return r
         sym = {ast.Eq: "==", ast.NotEq: "!=", ast.Lt: "<", ast.LtE: "<=", ast.Gt: ">", ast.GtE: ">="}[type(op)]
+        if isinstance(a, SetV) and isinstance(b, SetV) and sym in ("==", "!=") and all(
+            isinstance(x, StrV) for x in a.items + b.items
+        ):
+            return BoolV("const", ({x.s for x in a.items} == {x.s for x in b.items}) == (sym == "=="))
         if isinstance(a, StrV) and isinstance(b, StrV) and sym in ("==", "!="):
             return BoolV("const", (a.s == b.s) == (sym == "=="))
         an, bn = self.to_nf(a), self.to_nf(b)
@@ -1309,6 +1313,15 @@ class Interp:
             if meth in ("keys", "items", "values"):
                 return recv
         if isinstance(recv, SetV) and meth == "intersection":
+            if len(args) == 1 and all(isinstance(x, StrV) for x in recv.items):
+                other = args[0]
+                keys = None
+                if isinstance(other, DictV) and not other.fallback:
+                    keys = set(other.items)
+                elif isinstance(other, (SetV, TupV)) and all(isinstance(x, StrV) for x in other.items):
+                    keys = {x.s for x in other.items}
+                if keys is not None:
+                    return SetV([x for x in recv.items if x.s in keys])
             return Num(nf.fn("intersection", self.to_nf(recv), *[self.to_nf(a) for a in args]))
         if isinstance(recv, StrV):
             return StrV("<str>")
@@ -1559,7 +1572,16 @@ def _h_dict(it, args, kwargs, bound, node, qual):
     return args[0]
 
 
+def _h_dataframe(it, args, kwargs, bound, node, qual):
+    d = bound.get("data")
+    if isinstance(d, DictV):
+        it.log("ext_call", node, callee=qual, args=bound, result=d)
+        return DictV(dict(d.items), list(d.fallback))
+    return None
+
+
 _EXT_HANDLERS = {
+    "pandas.DataFrame": _h_dataframe,
     "math.exp": _h_unary(nf.exp),
     "numpy.exp": _h_unary(nf.exp),
     "math.log": _h_unary(nf.log),
